@@ -188,6 +188,56 @@ def run(ctx):
     ctx.extra["mask_index_operations"] = ni
     ctx.require(nj >= 8, f"only {nj} joint filters found")
     ctx.floor("C09.6", 8)
+    # ---- C09.8 the rejection step that turns proposal draws into prior draws ----------------------------------
+    from ..canon import linform as _lf, single_assignments as _sa
+    from ..lin import lin_eq as _leq
+    for cq in (tables.REJECTION, tables.FP):
+        cw_ = prog.cls(cq).methods.get("compute_weights")
+        ctx.require(cw_ is not None, f"{cq}.compute_weights vanished")
+        inl_ = _sa(cw_.node)
+        wdef = find_stmt("$$w = $$p - $$q", cw_.node)
+        rets_ = [r for r in walk_no_nested(cw_.node) if isinstance(r, ast.Return)]
+        okw_ = len(wdef) == 1 and all((isinstance(r.value, ast.Name) and r.value.id == src(wdef[0][1]["w"])) or (isinstance(r.value, ast.Tuple) and src(r.value.elts[0]) == src(wdef[0][1]["w"]) and src(r.value.elts[1]) == src(wdef[0][1]["p"])) for r in rets_)
+        ctx.ob("R-SIB", "C09.8", cw_, "rejection weights are log prior - log proposal density of the same points (and the log prior is what is returned as such)", okw_, f"`{src(wdef[0][0]) if wdef else None}`")
+    rp = ctx.fn(tables.REJECTION + ".populate")
+    ok_r = False
+    b0 = find_stmt("$$w, $$x['logP'] = self.compute_weights($$x, return_log_prior=True)", rp.node)
+    if len(b0) == 1:
+        bb = b0[0][1]
+        n1 = find_stmt("$$w -= nanmax($$w)", rp.node, bb) or find_stmt("$$w -= max($$w)", rp.node, bb)
+        u1 = find_stmt("$$u = log(random.rand(N))", rp.node)
+        if len(n1) == 1 and len(u1) == 1:
+            acc = find_stmt("$$i = where($$w - $$u >= 0)[0]", rp.node, {**bb, **u1[0][1]}) or find_stmt("$$i = where($$w >= $$u)[0]", rp.node, {**bb, **u1[0][1]}) or find_stmt("$$i = where($$w > $$u)[0]", rp.node, {**bb, **u1[0][1]})
+            ok_r = len(acc) == 1 and len(find_stmt("self.samples = $$x[$$i]", rp.node, {**bb, **acc[0][1]})) == 1 and len(find_stmt("$$x = self.draw_proposal(N=N)", rp.node, bb)) == 1
+    ctx.ob("R-SIB", "C09.8", rp, "RejectionProposal: N proposal draws, weights normalised by their maximum, one uniform per draw, the pool is the accepted rows of those draws", ok_r, "")
+    fp_ = ctx.fn(tables.FP + ".populate")
+    fpa = FA(fp_)
+    bw = find_stmt("$$w = self.compute_weights($$x, $$q)", fp_.node)
+    bq = find_stmt("$$x, $$q = self.backward_pass($$z, rescale=not self.use_x_prime_prior)", fp_.node, bw[0][1] if len(bw) == 1 else None)
+    ctx.ob("R-SIB", "C09.8", fp_, "FlowProposal: weights are computed for exactly the points and densities returned by backward_pass of the latent draw", len(bw) == 1 and len(bq) == 1, "")
+    if len(bw) == 1:
+        bb = bw[0][1]
+        n2 = find_stmt("$$w -= $$w.max()", fp_.node, bb)
+        u2 = find_stmt("$$u = log(random.rand(len($$w)))", fp_.node, bb)
+        ok2 = False
+        if len(n2) == 1 and len(u2) == 1:
+            a2 = find_stmt("$$a = $$w > $$u", fp_.node, {**bb, **u2[0][1]}) or find_stmt("$$a = $$w >= $$u", fp_.node, {**bb, **u2[0][1]})
+            ok2 = len(a2) == 1 and len(find_stmt("$$S[$lo:$hi] = $$x[$$a][:$$m]", fp_.node, {**bb, **a2[0][1]})) == 1
+        ctx.ob("R-SIB", "C09.8", fp_, "FlowProposal (per-batch rejection): weights normalised by their maximum, one uniform per point, accepted rows of the same batch are copied into the pool", ok2, "")
+        # accumulate-weights branch
+        cat = find_stmt("$$S = concatenate([$$S, $$x])", fp_.node, {"x": bb["x"]})
+        catw = find_stmt("$$W = concatenate([$$W, $$w])", fp_.node, {"w": bb["w"]})
+        ok3 = False
+        if len(cat) == 1 and len(catw) == 1:
+            cc = {**cat[0][1], **catw[0][1]}
+            kc = find_stmt("$$c = max(nanmax($$w), $$c)", fp_.node, {"w": bb["w"]})
+            acc3 = [b_ for n_, b_ in find_stmt("$$a = $$W - $$c > $$u", fp_.node, {"W": cc["W"]})]
+            us3 = [b_ for n_, b_ in find_stmt("$$u = log(random.rand(len($$W)))", fp_.node, {"W": cc["W"]})]
+            fin = find_stmt("self.x = $$S[$$a][:N]", fp_.node, {"S": cc["S"]})
+            ok3 = len(kc) == 1 and len(acc3) == 2 and len(us3) == 2 and all(src(a_["c"]) == src(kc[0][1]["c"]) for a_ in acc3) and len(fin) == 1
+        ctx.ob("R-SIB", "C09.8", fp_, "FlowProposal (accumulated weights): points and weights are accumulated together, normalised by the running maximum, one uniform per accumulated point, and the pool is the accepted accumulated rows", ok3, "")
+    ctx.floor("C09.8", 5)
+
     # ---- C09.7 field order of what the proposals hand to the live array ------------------------------
     from ..rules import fieldorder as _fo
     from .. import tables as _t
@@ -269,6 +319,10 @@ MUTANTS = [
     {"id": "ins-flows-prior-mask-dropped", "file": _IP, "old": "        samples, log_q = get_subset_arrays(\n            np.isfinite(samples[\"logP\"]), samples, log_q\n        )\n", "new": "", "expect": "isfinite(points['logP'])"},
     {"id": "ins-initial-points-unfiltered", "file": "nessai/samplers/importancesampler.py", "old": "            live_points[n : (n + m)] = points[accept][:m]", "new": "            live_points[n : (n + m)] = points[:m]", "expect": "copied only through"},
     {"id": "ungated-likelihood-site", "file": _FP, "old": "        x[\"logP\"] = self.model.batch_evaluate_log_prior(x)\n        return rfn.repack_fields(", "new": "        x[\"logP\"] = self.model.batch_evaluate_log_prior(x)\n        x[\"logL\"] = self.model.batch_evaluate_log_likelihood(x)\n        return rfn.repack_fields(", "expect": "reviewed, gated sites"},
+    {"id": "rejection-accept-flipped", "file": _RJ, "old": "        indices = np.where((log_w - log_u) >= 0)[0]", "new": "        indices = np.where((log_u - log_w) >= 0)[0]", "expect": "RejectionProposal: N proposal draws"},
+    {"id": "weights-inverted", "file": _FP, "old": "        log_w = log_p - log_q\n        if return_log_prior:", "new": "        log_w = log_q - log_p\n        if return_log_prior:", "expect": "rejection weights are log prior - log proposal"},
+    {"id": "flow-weights-not-normalised", "file": _FP, "old": "                log_w -= log_w.max()\n", "new": "", "expect": "per-batch rejection"},
+    {"id": "accumulated-constant-not-updated", "file": _FP, "old": "                log_constant = max(np.nanmax(log_w), log_constant)\n", "new": "", "expect": "accumulated weights"},
     {"id": "z-not-filtered-with-x", "file": _FP, "old": "            x, z, log_prob = x[valid], z[valid], log_prob[valid]", "new": "            x, log_prob = x[valid], log_prob[valid]", "expect": "filtered and indexed together"},
     {"id": "ins-log-q-not-filtered", "file": _IP, "old": "            x, log_q_all = get_subset_arrays(accept, x, log_q_all)", "new": "            x = x[accept]", "expect": "filtered and indexed together"},
 ]
